@@ -118,6 +118,10 @@ theorem C16_narrowing_integers (o : Opts) (enc : Enc) (quoted : Bool) (c : UInt8
 example : narrowScalar ⟨false, .preserve, .all⟩ .w1252 true [57, 48, 48, 55, 49, 57, 57, 50, 53, 52, 55, 52, 48, 57, 57, 50] =
     .str [57, 48, 48, 55, 49, 57, 57, 50, 53, 52, 55, 52, 48, 57, 57, 50] := by rfl   -- "9007199254740992" = 2^53
 example : narrowScalar ⟨false, .preserve, .unquoted⟩ .utf8 false [45, 52, 50] = .int (-42) := by rfl
+/-- `-9223372036854775808` (i64::MIN): `to_i64` accepts it, `to_f64` refuses (beyond 2^53), so it stays a string -/
+example : narrowScalar ⟨false, .preserve, .all⟩ .utf8 false
+    [45, 57, 50, 50, 51, 51, 55, 50, 48, 51, 54, 56, 53, 52, 55, 55, 53, 56, 48, 56] =
+    .str [45, 57, 50, 50, 51, 51, 55, 50, 48, 51, 54, 56, 53, 52, 55, 55, 53, 56, 48, 56] := by rfl
 example : narrowScalar ⟨false, .preserve, .unquoted⟩ .utf8 true [45, 52, 50] = .str [45, 52, 50] := by rfl
 
 /-! ### duplicate keys: Group / Preserve / KeyValuePairs
